@@ -13,6 +13,9 @@ Parts
                 previous attempt (for implicit methods, whose retries also follow unconverged Newton solves: never larger than
                 the step first requested) and the same sign; the accepted dT is
                 that of the last attempt
+  scaling    metamorphic: for a linear problem and an explicit adaptive method (or a Richardson wrapper of an explicit
+             base), scaling (y0, atol) by 2^k leaves the recorded time grid bit-identical and scales the states exactly:
+             the error test must be homogeneous in (y, atol) - no absolute floor, no swapped tolerances.
   blowup     y' = y^2, y(0) = 1 integrated across t = 1, and benign problems with tolerances that cannot be met
              (1e-30): either FailedIntegration caused by FailedToMeetTolerances, or every recorded state satisfies
              oracle 1 - a 'successful' run that stores a state at or beyond the singularity is a violation.
@@ -100,9 +103,25 @@ def _blowup(draw):
                 dt=draw(st.sampled_from([0.1, 0.5])), rtol=draw(st.sampled_from([1e-30, 1e-25])), y0=[1.0])
 
 
+@st.composite
+def _scaling(draw):
+    method = draw(st.sampled_from([n for n in _adaptive_names() if not M.is_implicit(n)]))
+    t0, tf = draw(traj.span(max_len=3.0))
+    L = abs(tf - t0)
+    prob = draw(PR.lin_params(dims=(1, 2, 3), horizon=L))
+    y0 = draw(PR.state([len(prob["A"])]))
+    if all(v == 0 for v in y0):
+        y0[0] = 1.0
+    rtol = 10.0 ** draw(st.sampled_from([-3, -4, -6, -8]))
+    rtol = max(rtol, _min_tol(method))
+    return dict(part="scaling", method=method, dtype="float64", prob=prob, y0=y0, t0=t0, tf=tf, dt=L * draw(st.sampled_from([0.01, 0.1, 0.5])),
+                rtol=rtol, atol=rtol * draw(st.sampled_from([1.0, 1e-3, 1e3, 1e-6])), dense=False, k=draw(st.sampled_from([-17, -10, 13, 20, -30])))
+
+
 def parts(tier):
     q = tier == "quick"
-    return [Part("accuracy", strategy=_accuracy(), examples=500 if q else 10000, timeout=600),
+    return [Part("scaling", strategy=_scaling(), examples=300 if q else 6000, timeout=300),
+            Part("accuracy", strategy=_accuracy(), examples=500 if q else 10000, timeout=600),
             Part("blowup", strategy=_blowup(), examples=60 if q else 1500, timeout=300)]
 
 
@@ -316,5 +335,40 @@ def _check_blowup(case):
     return viols, dict(nontrivial=True, labels=labels)
 
 
+def _check_scaling(case):
+    """Metamorphic relation: for a LINEAR problem, scaling the initial state and atol by c = 2^k (rtol unchanged)
+    scales every quantity the controller compares exactly, so the time grid must be bit-identical and the states
+    exactly c times the unscaled ones. Any absolute constant in the error scale (a floor, swapped tolerances, an
+    absolute step limit) breaks it."""
+    import desolver as de
+    method = case["method"]
+    fam = M.family(M.get(method))
+    attrs = dict(method=method, family=fam)
+    labels = ["scaling:" + method, "k={}".format(case["k"])]
+    c = 2.0 ** case["k"]
+    runs = []
+    for scale in (1.0, c):
+        cc = dict(case, y0=[v * scale for v in case["y0"]], atol=case["atol"] * scale)
+        a, f, y0 = traj.make_system(cc)
+        err = traj.run_integrate(a, step_limit=3000)
+        if err is not None:
+            if isinstance(err, traj.StepCap):
+                return [], dict(nontrivial=False, labels=labels + ["capped"])
+            return [V("integrate_raised", "{} raised {!r} caused by {!r} (state scale {})".format(method, err, err.__cause__, scale), fam + exc_sig(err), **attrs)], dict(nontrivial=False, labels=labels)
+        runs.append((np.asarray(a.t, dtype=np.float64).copy(), np.asarray(a.y, dtype=np.float64).copy()))
+    (t1, y1), (t2, y2) = runs
+    viols = []
+    if len(t1) != len(t2) or not np.array_equal(t1, t2):
+        k = int(np.argmax(t1[:min(len(t1), len(t2))] != t2[:min(len(t1), len(t2))])) if len(t1) and len(t2) else 0
+        viols.append(V("scale_invariance_grid", "{}: y' = A y with (y0, atol) scaled by 2^{} (rtol = {:.0e}, atol = {:.1e}): the step sequence changes ({} vs {} steps; first difference at sample {}: {!r} vs {!r}) - the error test is not homogeneous in (y, atol)".format(
+            method, case["k"], case["rtol"], case["atol"], len(t1) - 1, len(t2) - 1, k, float(t1[k]) if k < len(t1) else None, float(t2[k]) if k < len(t2) else None), fam, **attrs))
+    elif not np.array_equal(y1 * c, y2):
+        viols.append(V("scale_invariance_state", "{}: states of the run scaled by 2^{} are not exactly the scaled states (max relative difference {:.3e})".format(
+            method, case["k"], float(np.max(np.abs(y1 * c - y2)) / (np.max(np.abs(y2)) + 1e-300))), fam, **attrs))
+    return viols, dict(nontrivial=bool(len(t1) > 3), labels=labels, counts=dict(recorded_steps=len(t1) - 1))
+
+
 def check(case):
+    if case["part"] == "scaling":
+        return _check_scaling(case)
     return _check_accuracy(case) if case["part"] == "accuracy" else _check_blowup(case)
